@@ -218,7 +218,12 @@ fn deflate_reset(ctx: &mut Ctx, env: &MEnv) {
     let quick = ctx.quick();
     let mut data = text(5, 2500);
     data.extend(lcg_bytes(8, 600));
-    let cfgs = [DCfgM { level: 6, wb: 15, ml: 8, st: 0, header: false }, DCfgM { level: 1, wb: -9, ml: 1, st: 0, header: false }, DCfgM { level: 0, wb: 9, ml: 1, st: 0, header: false }, DCfgM { level: 9, wb: 31, ml: 2, st: 0, header: false }, DCfgM { level: 4, wb: -15, ml: 2, st: 3, header: false }];
+    let cfgs = [DCfgM { level: 6, wb: 15, ml: 8, st: 0, header: false }, DCfgM { level: 1, wb: -9, ml: 1, st: 0, header: false }, DCfgM { level: 0, wb: 9, ml: 1, st: 0, header: false }, DCfgM { level: 9, wb: 31, ml: 2, st: 0, header: false }, DCfgM { level: 4, wb: -15, ml: 2, st: 3, header: false },
+        // a gzip header whose 600-byte name does not fit the 512-byte pending buffer: 1-byte rooms stop inside the field,
+        // and the header set with deflateSetHeader stays installed across deflateReset (as in zlib)
+        DCfgM { level: 9, wb: 25, ml: 1, st: 0, header: true },
+        DCfgM { level: 1, wb: 31, ml: 1, st: 0, header: true },
+    ];
     let pa = d_prefix_alphabet();
     let sa = d_suffix_alphabet();
     let mut suffixes: Vec<Vec<MOp>> = vec![];
@@ -250,7 +255,7 @@ fn deflate_reset(ctx: &mut Ctx, env: &MEnv) {
                         let used = a.given;
                         a.pos = used;
                         c.exec();
-                        let fcfg = DCfgM { level, wb: cfg.wb, ml: cfg.ml, st, header: false };
+                        let fcfg = DCfgM { level, wb: cfg.wb, ml: cfg.ml, st, header: cfg.header };
                         let mut f = d_init(&fcfg, &data, &mut hold)?;
                         f.pos = used;
                         f.given = used;
@@ -271,13 +276,13 @@ fn deflate_reset(ctx: &mut Ctx, env: &MEnv) {
     }
 }
 
-struct IData {
-    name: &'static str,
-    wb: i32,
-    bytes: Vec<u8>,
+pub struct IData {
+    pub name: &'static str,
+    pub wb: i32,
+    pub bytes: Vec<u8>,
 }
 
-fn idata() -> Vec<IData> {
+pub fn idata() -> Vec<IData> {
     let env = Env::new();
     let mut plain = text(4, 1500);
     plain.extend(rep(b'x', 700));
